@@ -185,6 +185,17 @@ Proof. intros Hnd Hin. rewrite <- (app_nil_r cls). apply lookup_class_own; auto.
 (* The guard with mixins.  top: this selection set is a whole response object (its collected keys  *)
 (* — own fields and mixin fragments' fields together — must satisfy keys_ok); a mixin fragment's   *)
 (* own selection set is checked with top = false.                                                  *)
+(* every resolved mixin is a listed base or is inherited through a listed base (true of every
+   document whose fragments do not spread each other cyclically) *)
+Definition reach_ok (fuel : nat) (S : schema) (frs : list fragdef) (ms : list string) : bool :=
+  match remove_inherited fuel S frs ms with
+  | Ok kept =>
+      forallb (fun m => mem m kept ||
+                        existsb (fun k => match fragment_bases fuel S frs k with
+                                          | Ok lk => mem m lk | Err _ => false end) kept) ms
+  | Err _ => false
+  end.
+
 Fixpoint sels_okM (fuel : nat) (cov : bool) (C : cfg) (S : schema) (frs : list fragdef)
          (top nested : bool) (rt r : string) (sels : list sel) : bool :=
   match fuel with
@@ -206,7 +217,8 @@ Fixpoint sels_okM (fuel : nat) (cov : bool) (C : cfg) (S : schema) (frs : list f
                                 negb (unpack_fragment S fm None) &&
                                 sels_okM g cov C S frs false false rt (fr_on fm) (fr_sel fm)
                             | None => false
-                            end) ms
+                            end) ms &&
+          reach_ok g S frs ms
       | None => false
       end
   end.
@@ -232,7 +244,8 @@ Lemma sels_okM_S g cov C S frs top nested rt r sels :
          end
        else true) &&
       forallb (field_ok (sels_okM g cov C S frs true true) g cov S nested rt r) fns &&
-      forallb (mixin_ok g cov C S frs rt) ms
+      forallb (mixin_ok g cov C S frs rt) ms &&
+      reach_ok g S frs ms
   | None => false
   end.
 Proof. reflexivity. Qed.
@@ -243,12 +256,14 @@ Lemma sels_okM_inv g cov C S frs top nested rt r sels :
     (top = true -> exists l, collect g' S frs rt false sels = Some l /\ keys_ok C (map n_key l) = true /\
                              (cov = true -> NoDup (map (py_field_name C) (map n_key l)))) /\
     forallb (field_ok (sels_okM g' cov C S frs true true) g' cov S nested rt r) fns = true /\
-    forallb (mixin_ok g' cov C S frs rt) ms = true.
+    forallb (mixin_ok g' cov C S frs rt) ms = true /\
+    reach_ok g' S frs ms = true.
 Proof.
   destruct g as [|g']; [discriminate|]. rewrite sels_okM_S. intro H.
   destruct (flattenM g' S frs rt r sels) as [[fns ms]|] eqn:Ef; [| discriminate].
-  apply andb_true_iff in H as [H H3]. apply andb_true_iff in H as [H1 H2].
-  exists g', fns, ms. split; [reflexivity|]. split; [exact Ef|]. split; [| split; [exact H2 | exact H3]].
+  apply andb_true_iff in H as [H H4]. apply andb_true_iff in H as [H H3]. apply andb_true_iff in H as [H1 H2].
+  exists g', fns, ms. split; [reflexivity|]. split; [exact Ef|].
+  split; [| split; [exact H2 | split; [exact H3 | exact H4]]].
   intro Ht. subst top. destruct (collect g' S frs rt false sels) as [l|]; [| discriminate].
   apply andb_true_iff in H1 as [K1 K2]. exists l. split; [reflexivity|]. split; [exact K1|].
   intro Hc. subst cov. simpl in K2. apply nodupb_NoDup, K2.
@@ -290,7 +305,7 @@ Lemma level_invM C S frs fuel pub cn rt r sels at_ tv out pub' g fns ms :
   exists f2 pfl extra kept,
     fuel = Datatypes.S f2 /\
     fields_run (parse_type_def fuel C S frs) C S frs fuel cn r tv fns (pub ++ [cn]) pfl extra pub' false /\
-    incl kept ms /\
+    incl kept ms /\ remove_inherited fuel S frs ms = Ok kept /\
     out = {| c_name := cn; c_bases := class_bases ms kept []; c_fields := pfl |} :: extra.
 Proof.
   intros H Hfl Hat. simpl in H. apply body_inv in H.
@@ -302,7 +317,7 @@ Proof.
   { unfold add_typename_field. destruct at_; [| reflexivity].
     rewrite (flattenM_typename _ _ _ _ _ _ _ _ (Hat eq_refl) Hfl). reflexivity. }
   rewrite Hadd in Hrun. exists f2, pfl, extra, kept. split; [reflexivity|]. split; [exact Hrun|].
-  split; [eapply remove_inherited_incl; eauto | exact Hout].
+  split; [eapply remove_inherited_incl; eauto | split; [exact Hk | exact Hout]].
 Qed.
 
 (* ------------------------------------------------------------------------------------------- *)
@@ -346,10 +361,10 @@ Section Mix.
     induction g as [|g IH];
       intros fuel pub cn rt r sels at_ tv top nested out pub' k l N kv fc HF Hp Hok Htv Hat Htab Hcol HlN Hamb;
       [discriminate Hok|].
-    destruct (sels_okM_inv _ _ _ _ _ _ _ _ _ _ Hok) as [g' [fns [ms [Eg [Hfl [_ [Hfields Hmix]]]]]]].
+    destruct (sels_okM_inv _ _ _ _ _ _ _ _ _ _ Hok) as [g' [fns [ms [Eg [Hfl [_ [Hfields [Hmix _]]]]]]]].
     inversion Eg; subst g'. clear Eg.
     destruct fuel as [|fuel']; [discriminate Hp|].
-    destruct (level_invM _ _ _ _ _ _ _ _ _ _ _ _ _ _ _ _ Hp Hfl Hat) as [f2 [pfl [extra [kept [Ef [Hrun [Hkept Hout]]]]]]].
+    destruct (level_invM _ _ _ _ _ _ _ _ _ _ _ _ _ _ _ _ Hp Hfl Hat) as [f2 [pfl [extra [kept [Ef [Hrun [Hkept [_ Hout]]]]]]]].
     destruct Hamb as [HkN [HkvN HspecN]].
     destruct (flattenM_collect_mix _ _ _ _ _ _ _ _ _ _ Hfl Hcol) as [Hown Hmixn].
     assert (Hc0 : In {| c_name := cn; c_bases := class_bases ms kept []; c_fields := pfl |} out)
